@@ -528,6 +528,55 @@ def tilde_case(item):
     return part
 
 
+def encoding_case(item):
+    """one-byte server encodings: every byte is a letter there, also those that are telnet commands (IAC, IP, DM ...) on
+    a utf-8 wire - a name made of them addresses exactly itself"""
+    enc, firsts = item
+    from vf.rig import Rig
+    part = report.Partial()
+    problems = []
+    rig = Rig(tree={}, server_kwargs={"encoding": enc})
+    try:
+        w = rig.world
+        s0 = rig.sessions[0]
+        rig.ev(0, "@connect")
+        rig.ev(0, "USER anonymous")
+        names = []
+        for f in firsts:
+            for b in range(0x80, 0x100):
+                raw = bytes([0x61, f, b, 0x62])
+                try:
+                    name = raw.decode(enc)
+                except UnicodeDecodeError:
+                    continue
+                if name != name.strip() or any(ch.isspace() for ch in name):
+                    continue
+                names.append((raw, name))
+        for raw, name in names:
+            s0.send(b"MKD " + raw + b"\r\n")
+        w.settle(0)
+        replies = s0.ctl.take_replies()
+        snap = rig.snapshot()
+        made = sorted(k[1:] for k in snap)
+        want = sorted(n for _, n in names)
+        if made != want:
+            missing = [n for n in want if n not in made][:5]
+            extra = [n for n in made if n not in want][:5]
+            problems.append({"kind": "name-addresses-another-location", "encoding": enc, "missing": missing, "instead": extra,
+                             "replies": len(replies)})
+        part.evaluations += len(names)
+        part.traces += 1
+        part.transitions += w.net.n_events
+        k = report.fp(["encoding", enc, firsts])
+        part.states.add(k)
+        part.nontrivial.add(k)
+        for p_ in problems[:1]:
+            part.violation({"kind": p_["kind"], "encoding": enc}, {"problem": p_}, replay={"encoding": [enc, list(firsts)]})
+    finally:
+        rig.close()
+    return part
+
+
 def late_case(item):
     """the working directory changes between a transfer verb and the arrival of its data connection: the location
     actually addressed (and every backend call) must be the one the verb named when it arrived"""
@@ -601,6 +650,8 @@ def run(tier, seed, t0):
     parts += pparts
     parts += report.pmap(glob_case, [(b, wh) for b in ("pathio", "async") for wh in ("name", "base")])
     parts += report.pmap(home_case, [(h,) for h in HOMES])
+    parts += report.pmap(encoding_case, [(enc, firsts) for enc in ("latin-1", "cp1251", "koi8-r", "cp437")
+                                         for firsts in ([0xff], [0xfe, 0xfd, 0xfc, 0xfb], [0xf2, 0xf4, 0xf0, 0xfa])])
     parts += report.pmap(tilde_case, [(b, n) for b in ("pathio", "async") for n in ("~", "~root", "~nobody", "$HOME", "%HOME%")])
     parts += report.pmap(pipelined_relogin_work, [({"first": first, "cmd": cmd}, 1 if tier == "quick" else 2)
                                                   for first in ("alice", "bob") for cmd in PIPE_BEFORE_USER])
@@ -609,6 +660,7 @@ def run(tier, seed, t0):
                            "path_strings": nstrings, "cwds": len(cwds()), "bases": BASES},
               "wire": {"segments": WSEGS, "verbs": WVERBS, "cwd_histories": WCWD_HISTS,
                        "max_segments": "2 (3 for CWD/STOR/RETR)" if tier == "quick" else 3},
+              "one_byte_encodings": "latin-1, cp1251, koi8-r, cp437: names a<X><Y>b for X in the telnet command bytes 0xF0..0xFF and every high byte Y",
               "home_paths": HOMES,
               "relative_base": "file-system backends serving '.', names ~ ~root ~nobody $HOME %HOME%: judged on the real file system",
               "shell_pattern_names": "file-system backends: names `[s]ecret`, `p?b`, `*` and a base directory `ftp[1]` next to `ftp1`",
@@ -632,6 +684,10 @@ def run(tier, seed, t0):
 def replay(path):
     data = json.loads(open(path).read())
     rp = data["replay"]
+    if "encoding" in rp:
+        part = encoding_case((rp["encoding"][0], rp["encoding"][1]))
+        print(json.dumps([v["detail"] for v in part.violations], indent=1, default=repr))
+        return 1 if part.violations else 0
     if "tilde" in rp:
         part = tilde_case(tuple(rp["tilde"]))
         print(json.dumps([v["detail"] for v in part.violations], indent=1, default=repr))
